@@ -129,6 +129,18 @@ func Parse(file, text string) ([]*Block, error) {
 			blocks = append(blocks, cur)
 			last = nil
 			continue
+		case "noeffect":
+			// "noeffect <method name> <reason>": calls of a result-less interface method of that
+			// name for which no contract exists are assumed to have no effect on the verified state
+			f := strings.SplitN(rest, " ", 2)
+			nb := &Block{Kind: "noeffect", Name: f[0], File: file, Line: i + 1, Opts: map[string]string{}}
+			if len(f) > 1 {
+				nb.Notes = append(nb.Notes, f[1])
+			}
+			blocks = append(blocks, nb)
+			cur = nil
+			last = nil
+			continue
 		case "lemma":
 			j := strings.Index(rest, "(")
 			if j < 0 || !strings.HasSuffix(rest, ")") {
